@@ -234,7 +234,7 @@ which legal encoding is written, hash function, load factor, buffer growth, mess
 justified ones, refactorings).  `tools/benign_verify.sh` applies each to a scratch worktree and runs the
 quick check of the property itself and (`tools/benign_cross.sh`) of every other property whose code the
 patch touches.  {len(benign)} changes (`/verif/benign/<id>/`: `patch.diff`, `notes.md`, `meta.json`):
-{n_benign_ok} raised no alarm in any check run on them.  After seed rounds 12-15 had widened many alphabets, every benign change was run once more against the final harness of its own property (`build/benign4.log`): {n_benign_final} of {len(benign)} raise no alarm{benign_final_note}.  The alarms of the first pass:
+{n_benign_ok} raised no alarm in any check run on them.  After seed rounds 12-15 had widened many alphabets, every benign change was run once more against the final harness of its own property (`notes/benign_final.log`): {n_benign_final} of {len(benign)} raise no alarm{benign_final_note}.  The alarms of the first pass:
 
 * `benign/C15-3` (slices emitted arc-first, centre last): C15 reported 372 `primitive.ellipse/off-curve`
   violations - a FALSE ALARM of the check (it assumed where the vertex list of a slice starts).  Corrected:
